@@ -59,6 +59,12 @@ where
             return Err(InvalidView);
         }
 
+        // The archived root must fit within the checked bytes, otherwise the cast below
+        // would produce a view which reads outside of the provided buffer.
+        if data_bytes.len() < mem::size_of::<T::Archived>() {
+            return Err(InvalidView);
+        }
+
         let view = unsafe { rkyv::archived_root::<T>(data_bytes) };
 
         Ok(Self { data, view })
